@@ -247,6 +247,9 @@ func (ig *ingest) ctxProvenance(ev *Eval, rule string, ctx, h, v *Term) bool {
 	if rule == "K6.commit" {
 		pr = props("C15", "C16") // a commit callback under a context that shutdown does not cancel keeps the worker from ending
 	}
+	if rule == "K6.committee" {
+		pr = props("C15", "C08", "C18") // ... and the committee (membership, leader order) must be the one of the height the term decides
+	}
 	return ev.Verdict(rule, pr, "the context handed to an SPI call / consumer callback is the one issued by the context registry for the position the call is about", "", ok, why)
 }
 
